@@ -32,6 +32,11 @@ func mkInput(t, it int) []byte {
 		if k%2 == 0 {
 			inner = append(inner, ln(2, vi(1, uint64(7000000*(t+1)+it)))...)
 		}
+		if (t+it+k)%3 == 0 {
+			inner = nil // an EMPTY nested message: implementations tend to treat it specially (a shared "empty" result?)
+		} else if (t+it+k)%5 == 0 {
+			inner = append(inner, ln(2, nil)...) // an empty message one level further down
+		}
 		b = append(b, ln(2, inner)...)
 	}
 	return append(b, ln(3, []byte(fmt.Sprintf("thread-%d-iteration-%d", t, it)))...)
@@ -98,6 +103,18 @@ func TestRacePass(t *testing.T) {
 										if sig, msg := lazyref.CheckFlat(nr, def[2], sf, accs, []int{1, 2}, &calls); sig != "" {
 											t.Errorf("ISOLATION-FAILURE nested %s: %s", sig, msg)
 											return
+										}
+										if len(sf[2]) > 0 { // one level further down, through the singular accessor
+											if nn, err := nr.NestedResult(2); err != nil || nn == nil {
+												t.Errorf("ISOLATION-FAILURE NestedResult(2) of nested %d: %v", i, err)
+												return
+											} else {
+												ssf, _ := lazyref.RefFields(sf[2][len(sf[2])-1].Payload)
+												if sig, msg := lazyref.CheckFlat(nn, def[2][2], ssf, accs, []int{1}, &calls); sig != "" {
+													t.Errorf("ISOLATION-FAILURE nested.nested %s: %s", sig, msg)
+													return
+												}
+											}
 										}
 									}
 								}
